@@ -8,7 +8,7 @@ from enum import Enum
 from typing import TYPE_CHECKING
 
 from dissect.cstruct.types.pointer import Pointer
-from dissect.cstruct.types.structure import Structure
+from dissect.cstruct.types.structure import Structure, UnionProxy
 
 if TYPE_CHECKING:
     from collections.abc import Iterator
@@ -224,6 +224,10 @@ def dumpstruct(
     """
     if output not in ("print", "string"):
         raise ValueError(f"Invalid output argument: {output!r} (should be 'print' or 'string').")
+
+    if isinstance(obj, UnionProxy):
+        # A structure that is a member of a union
+        obj = obj.__target__
 
     if isinstance(obj, Structure):
         return _dumpstruct(obj, obj.dumps(), offset, color, output)
